@@ -28,9 +28,23 @@ impl<'fds, 'buf> UnmarshalContext<'fds, 'buf> {
         }
     }
 
+    /// Creates a context that can only see the next `length` bytes. The offset of the new context
+    /// is still relative to the start of the message, because all padding is calculated from it.
     pub fn sub_context(&mut self, length: usize) -> UnmarshalResult<UnmarshalContext<'fds, 'buf>> {
-        let region = self.read_raw(length)?;
-        Ok(UnmarshalContext::new(self.fds, self.byteorder, region, 0))
+        let start = self.cursor.offset;
+        self.read_raw(length)?;
+        let region = &self.cursor.buf[..start + length];
+        Ok(UnmarshalContext::new(
+            self.fds,
+            self.byteorder,
+            region,
+            start,
+        ))
+    }
+
+    /// The whole buffer this context reads from and the current offset into it
+    pub(crate) fn buf_and_offset(&self) -> (&'buf [u8], usize) {
+        (self.cursor.buf, self.cursor.offset)
     }
 
     pub fn align_to(&mut self, alignment: usize) -> Result<usize, UnmarshalError> {
